@@ -133,11 +133,20 @@ type Problem struct {
 	Call         int
 }
 
+// ShadowStore is the committed keyed state; several handlers (one per operator) may share one.
+type ShadowStore struct {
+	mu sync.Mutex
+	m  map[string]KeyShadow
+}
+
+func NewShadowStore() *ShadowStore { return &ShadowStore{m: map[string]KeyShadow{}} }
+
 // Handler is the scripted recording proto.Handler.
 type Handler struct {
 	Name      string
 	mu        sync.Mutex
-	shadow    map[string]KeyShadow
+	store     *ShadowStore
+	shadow    map[string]KeyShadow // == store.m, accessed with store.mu held
 	calls     []Call
 	problems  []Problem
 	TimerProg func(key []byte, t int64) Program // program run for a TimerExpired event
@@ -147,8 +156,11 @@ type Handler struct {
 	Sink      [][]byte
 }
 
-func NewHandler(name string) *Handler {
-	h := &Handler{Name: name, shadow: map[string]KeyShadow{}, applied: map[string]int{}}
+func NewHandler(name string) *Handler { return NewHandlerSharing(name, NewShadowStore()) }
+
+// NewHandlerSharing creates a handler whose committed state lives in a shared store.
+func NewHandlerSharing(name string, st *ShadowStore) *Handler {
+	h := &Handler{Name: name, store: st, shadow: st.m, applied: map[string]int{}}
 	h.cond = sync.NewCond(&h.mu)
 	return h
 }
@@ -173,6 +185,8 @@ func (h *Handler) ProcessEventBatch(ctx context.Context, req *handlerpb.ProcessE
 	}
 	h.mu.Lock()
 	defer h.mu.Unlock()
+	h.store.mu.Lock()
+	defer h.store.mu.Unlock()
 	call := Call{Seq: len(h.calls), Tick: lib.Tick.Add(1)}
 	if req.Watermark != nil {
 		call.WmSeconds = req.Watermark.Seconds
@@ -353,8 +367,8 @@ func (h *Handler) Problems() []Problem {
 
 // ShadowSnapshot returns a deep copy of the committed state (optionally only keys accepted by keep).
 func (h *Handler) ShadowSnapshot(keep func(key []byte) bool) map[string]KeyShadow {
-	h.mu.Lock()
-	defer h.mu.Unlock()
+	h.store.mu.Lock()
+	defer h.store.mu.Unlock()
 	out := map[string]KeyShadow{}
 	for k, s := range h.shadow {
 		if keep == nil || keep([]byte(k)) {
@@ -366,9 +380,11 @@ func (h *Handler) ShadowSnapshot(keep func(key []byte) bool) map[string]KeyShado
 
 // ResetShadow replaces the committed state (a new epoch after a restore: shadow = cut).
 func (h *Handler) ResetShadow(s map[string]KeyShadow) {
-	h.mu.Lock()
-	defer h.mu.Unlock()
-	h.shadow = map[string]KeyShadow{}
+	h.store.mu.Lock()
+	defer h.store.mu.Unlock()
+	for k := range h.shadow {
+		delete(h.shadow, k)
+	}
 	for k, v := range s {
 		h.shadow[k] = v.clone()
 	}
@@ -376,8 +392,8 @@ func (h *Handler) ResetShadow(s map[string]KeyShadow) {
 
 // MergeShadow overwrites the committed state of the given keys only.
 func (h *Handler) MergeShadow(s map[string]KeyShadow, drop func(key []byte) bool) {
-	h.mu.Lock()
-	defer h.mu.Unlock()
+	h.store.mu.Lock()
+	defer h.store.mu.Unlock()
 	for k := range h.shadow {
 		if drop != nil && drop([]byte(k)) {
 			delete(h.shadow, k)
